@@ -7,5 +7,13 @@ here=$(cd "$(dirname "$0")" && pwd); root=$(cd "$here/../../.." && pwd)
 . "$root/env.sh"
 rm -rf "$W/inst"; mkdir -p "$W/inst"
 ( cd "$root/mc" && $GO build -o "$W/inst.bin" ./inst ) >&2
-"$W/inst.bin" -repo "$VERIF_REPO" -out "$W/inst" -alt "${VERIF_EXTRA_OVERLAY:-}" -heavy "$(tr '\n' ',' < $here/HEAVY)" $(cat $here/PACKAGES) >&2
+# Packages to instrument: the static list PACKAGES (as far as the directories still exist) plus every package of the
+# tink module the harness REALLY depends on in the current tree (a refactoring may have moved shared state into a
+# new package), minus generated protos and the verification runtime itself.
+python3 "$root/mc/tools/mkoverlay.py" "$W/overlay_list.json" common rand c18 ${VERIF_EXTRA_OVERLAY:-} >&2 || true
+deps=$( cd "$root/mc" && $GO list -overlay "$W/overlay_list.json" -deps ./props/c18 2>/dev/null | sed -n 's,^github.com/tink-crypto/tink-go/v2/,,p' \
+        | grep -v -E '^(proto/|verifbridge/|verifrt/|internal$|internal/internalapi$|tink$|key$|monitoring$|insecuresecretdataaccess$)' || true )
+pkgs=$( (cat $here/PACKAGES; echo "$deps") | sort -u | while read -r d; do [ -n "$d" ] && ls "$VERIF_REPO/$d"/*.go >/dev/null 2>&1 && echo "$d"; done )
+echo "$pkgs" > "$W/packages.txt"
+"$W/inst.bin" -repo "$VERIF_REPO" -out "$W/inst" -alt "${VERIF_EXTRA_OVERLAY:-}" -heavy "$(tr '\n' ',' < $here/HEAVY)" $pkgs >&2
 echo "$W/inst"
